@@ -218,6 +218,8 @@ def fidelity_formula(kwargs, w):
 
 # -- H3 ------------------------------------------------------------------------------------------
 ID_KEY = "pipeline.photon_collection.probe.arguments.pid"
+T_KEY = "detector.environment.temperature"
+TEMPS = [110.0, 150.0, 190.0]
 A_KEY = "pipeline.photon_collection.probe.arguments.a"
 FR = (3, 3)
 
@@ -263,7 +265,7 @@ def accumulate(k, weights, which, full=False, target_dtype="float64"):
     def fake_run_pipeline(processor, readout, outputs, pipeline_seed=None, debug=False, with_inherited_coords=True):
         pid = processor.get(ID_KEY)
         a = processor.get(A_KEY)
-        calls.append((pid, a, pipeline_seed, readout))
+        calls.append((pid, a, pipeline_seed, readout, processor.get(T_KEY)))
         # stochastic models: the frame also depends on the seed the run is given; an unseeded run draws from an unknown state
         noise = pipeline_seed if pipeline_seed is not None else vx.real(f"os_entropy_{len(calls)}")
         frame = sims[pid] + a + noise  # the simulated frame depends on the run's own processor and on the applied parameter
@@ -296,7 +298,8 @@ def accumulate(k, weights, which, full=False, target_dtype="float64"):
             target_fit_range=trange,
             out_fit_range=orange,
             target_filenames=[f"tgt{i}.npy" for i in range(k)],
-            input_arguments=[ParameterValues(key=ID_KEY, values=list(range(k)))] if k > 1 else None,
+            # each target is paired with a model argument and with a detector setting of its own
+            input_arguments=[ParameterValues(key=ID_KEY, values=list(range(k))), ParameterValues(key=T_KEY, values=TEMPS[:k])] if k > 1 else None,
             weights=wvec if weights == "vector" else None,
             weights_from_file=[f"w{i}.npy" for i in range(k)] if weights == "file" else None,
             pipeline_seed=seed,
@@ -335,6 +338,8 @@ def accumulate(k, weights, which, full=False, target_dtype="float64"):
     vx.prove(f"C11/accumulate/sum_over_pairs/{lab}", vx.all_of([len(res) == 1, res[0] == total]))
     vx.prove(f"C11/accumulate/own_processor/{lab}", [c[0] for c in calls[:n_fit]] == list(range(k)))
     vx.prove(f"C11/accumulate/parameter_applied/{lab}", vx.all_of([c[1] == dv for c in calls[:n_fit]]))
+    if k > 1:
+        vx.prove(f"C11/accumulate/own_detector_input/{lab}", [c[4] for c in calls] == (TEMPS[:k] * 2)[: len(calls)], got=str([c[4] for c in calls]))
     # re-simulating the champion reproduces the simulated data its fitness was computed from
     same = [len(calls) == 2 * n_fit]
     for i in range(min(n_fit, len(calls) - n_fit)):
@@ -584,11 +589,11 @@ def replay(oid, kwargs, model, data):
         bad = bad or any(b > a for a, b in zip(out[0]["reported_champion_fitness"], out[1]["reported_champion_fitness"]))
         return bad, {"evolution_1": out[0], "evolution_2": out[1]}
     if fn == "accumulate":
-        return _replay_accumulate(kwargs, model, champion="champion_resimulation" in oid)
+        return _replay_accumulate(kwargs, model, champion="champion_resimulation" in oid, own_input="own_detector_input" in oid)
     return False, {"note": "no concrete oracle"}
 
 
-def _replay_accumulate(kwargs, model, champion=False):
+def _replay_accumulate(kwargs, model, champion=False, own_input=False):
     """Everything real: target / weight files on disk, real xarray, real exposure of a probe pipeline."""
     import os
     import tempfile
@@ -630,11 +635,12 @@ def _replay_accumulate(kwargs, model, champion=False):
             wfiles.append(os.path.join(tmp, f"w{i}.npy"))
             np.save(wfiles[-1], wf[i])
 
-        frames = []
+        frames, temps = [], []
 
         def hook(d, tag, kw, rec):
             d.pixel.array = sims[int(kw["pid"])] + float(kw["a"]) + (np.random.normal(size=FR) if champion else 0.0)
             frames.append((int(kw["pid"]), d.pixel.array.copy()))
+            temps.append(float(d.environment.temperature))
 
         vxprobes.reset(hook)
         pipe = DetectionPipeline(scene_generation=[ModelFunction(name="init", func="vxprobes.init_buckets")],
@@ -645,10 +651,12 @@ def _replay_accumulate(kwargs, model, champion=False):
             prob = ModelFittingDataTree(
                 processor=proc, variables=[ParameterValues(key=A_KEY, values="_", boundaries=(-10.0, 10.0))], readout=Readout(), simulation_output="pixel",
                 generations=1, population_size=2, fitness_func=f, file_path=None, target_fit_range=trange, out_fit_range=orange, target_filenames=tfiles,
-                input_arguments=[ParameterValues(key=ID_KEY, values=list(range(k)))] if k > 1 else None,
+                input_arguments=[ParameterValues(key=ID_KEY, values=list(range(k))), ParameterValues(key=T_KEY, values=TEMPS[:k])] if k > 1 else None,
                 weights=wv if weights == "vector" else None, weights_from_file=wfiles if weights == "file" else None,
                 pipeline_seed=int(model.get("pipeline_seed", 11)) % 2**31 if champion else None)
             got = float(prob.fitness(np.array([dv]))[0])
+            if own_input:
+                return temps != TEMPS[:k], {"detector_input_per_target": TEMPS[:k], "temperature_seen_by_the_run_of_each_target": temps}
             if champion:
                 n_fit = len(frames)
                 for proc_i in prob.param_processor_list:
